@@ -239,8 +239,42 @@ def solver(ck, fn, tag, validator_q, passthrough, cand_arg):
     ck.floor('C19.solver', 'success exits in the search loop of %s' % tag, len(succ), 1)
     ck.ob('C19.solver', 'C19.solver/%s/accepted-only' % tag, not fails, fn.loc(), '%s reports success only for a candidate the validator accepted' % tag,
           fails[0][3] if fails else None)
+    # ... and so is every other success exit of the solver, except the trivial `difficulty == 0` one: no remembered or
+    # precomputed nonce is handed out without being validated against THIS call's inputs
+    succ_all = [i for i in fn.walk() if fn.nodes[i]['k'] == 'ReturnStmt' and fn.kids(i) and const_value(fn, fn.kids(i)[0]) not in (0, None) and 'nullopt' not in fn.text(i)]
+    pds = {p_['d'] for p_ in fn.params}
+
+    def g_any(fact):
+        if g(fact):
+            return True
+        h = holds(fn, fact)
+        if h is None:
+            return False
+        a_, op_, b_ = h
+        return op_ == '==' and const_value(fn, b_) == 0 and declref(fn, a_) in pds
+    fails2, _ = gate_check(fn, [('success', s_) for s_ in succ_all], [('validator-accepted or difficulty == 0', g_any)])
+    ck.ob('C19.solver', 'C19.solver/%s/no-unvalidated-success' % tag, not fails2, fn.loc(fails2[0][2]) if fails2 else fn.loc(),
+          'every success exit of %s (%d) is past the validator accepting the candidate for these inputs, or past difficulty == 0' % (tag, len(succ_all)),
+          fails2[0][3] if fails2 else None)
+    impure = impure_sites(fn)
+    ck.ob('C19.pure', 'C19.pure/%s' % tag, not impure, fn.loc(impure[0]) if impure else fn.loc(),
+          '%s keeps no state between calls: no static / thread_local local and no use of a mutable namespace-scope variable' % tag)
     cand = a[cand_arg]
     return cand
+
+
+def impure_sites(fn):
+    """Nodes of fn that make it stateful: non-const static / thread_local locals, and references to mutable variables at
+    namespace scope (std:: objects such as std::cerr excepted)."""
+    out = []
+    for i in fn.walk():
+        nd = fn.nodes[i]
+        if nd['k'] == 'VarDecl' and (nd.get('static') or nd.get('tls')) and not nd.get('constexpr') and not (nd.get('const') and 'init' in nd):
+            out.append(i)
+        if nd['k'] == 'DeclRefExpr' and nd.get('g') and nd.get('dk') == 'Var' and 'cv' not in nd and not (nd.get('t') or '').startswith('const ') \
+                and not (nd.get('q') or '').startswith('std::'):
+            out.append(i)
+    return out
 
 
 def run(ck):
